@@ -148,8 +148,10 @@ Fixpoint no_divisor_from (fuel : nat) (d q : Z) : bool :=
   | S f => if q <? d * d then true else negb (q mod d =? 0) && no_divisor_from f (d + 1) q
   end.
 
+(* "if" rather than "&&": vm_compute evaluates the arguments of && eagerly, and the trial division must not be
+   started on a large number *)
 Definition small_prime (q : Z) : bool :=
-  (1 <? q) && (q <? 2 ^ 40) && no_divisor_from (Z.to_nat (Z.sqrt q)) 2 q.
+  if (1 <? q) && (q <? 2 ^ 40) then no_divisor_from (Z.to_nat (Z.sqrt q)) 2 q else false.
 
 Lemma no_divisor_from_spec : forall fuel d q, 0 < d -> no_divisor_from fuel d q = true ->
   forall x, d <= x < d + Z.of_nat fuel -> x * x <= q -> q mod x <> 0.
@@ -166,8 +168,8 @@ Qed.
 
 Lemma small_prime_sound : forall q, small_prime q = true -> prime q.
 Proof.
-  intros q H. unfold small_prime in H. apply andb_true_iff in H. destruct H as [H H3].
-  apply andb_true_iff in H. destruct H as [H1 _]. apply Z.ltb_lt in H1.
+  intros q H. unfold small_prime in H. destruct ((1 <? q) && (q <? 2 ^ 40)) eqn:H0; [|discriminate].
+  rename H into H3. apply andb_true_iff in H0. destruct H0 as [H1 _]. apply Z.ltb_lt in H1.
   apply trial_division_prime; auto. intros d Hd Hdd.
   apply (no_divisor_from_spec _ 2 q ltac:(lia) H3); auto.
   rewrite Z2Nat.id by (apply Z.sqrt_nonneg).
@@ -177,7 +179,7 @@ Qed.
 (* ---------- certificates ------------------------------------------------------------------------------------------ *)
 Definition entry := (Z * list (Z * Z))%type.     (* N, [(q, a)] *)
 
-Definition known_prime (known : list Z) (q : Z) : bool := existsb (Z.eqb q) known || small_prime q.
+Definition known_prime (known : list Z) (q : Z) : bool := if existsb (Z.eqb q) known then true else small_prime q.
 
 (* witnesses for the primes qs (processed with the product of the remaining ones) *)
 Fixpoint check_wits (known : list Z) (N : Z) (w : list (Z * Z)) : bool :=
@@ -204,8 +206,8 @@ Fixpoint check_certs (known : list Z) (certs : list entry) : bool :=
 
 Lemma known_prime_sound : forall known q, (forall k, In k known -> prime k) -> known_prime known q = true -> prime q.
 Proof.
-  intros known q Hk H. unfold known_prime in H. apply orb_true_iff in H. destruct H as [H|H].
-  - apply existsb_exists in H. destruct H as (k & Hin & E). apply Z.eqb_eq in E. subst. auto.
+  intros known q Hk H. unfold known_prime in H. destruct (existsb (Z.eqb q) known) eqn:E0.
+  - apply existsb_exists in E0. destruct E0 as (k & Hin & E). apply Z.eqb_eq in E. subst. auto.
   - apply small_prime_sound. exact H.
 Qed.
 
